@@ -118,7 +118,8 @@ func (e *Exec) step(st *State, ins ssa.Instruction) {
 			name = x.Name()
 		}
 		o := e.newLocal(T, name)
-		st.mem[o] = e.zero(T)
+		o.zeroInit = e.zero(T)
+		st.mem[o] = o.zeroInit
 		st.env[x] = &PtrV{Elem: T, Alts: []PtrAlt{{Cond: c.True(), Loc: &Loc{Obj: o}}}}
 	case *ssa.UnOp:
 		st.env[x] = e.unop(st, x)
